@@ -584,6 +584,16 @@ def str_method(I, v, name, args, kw):
             st = I.force(args[1]).t
             return VInt(z3.IndexOf(s, a.t, st))
         return VInt(z3.IndexOf(s, a.t, 0))
+    if name == "partition":
+        # (head, sep, tail) around the first occurrence of sep; (s, '', '') when sep does not occur
+        a = I.force(args[0])
+        i = z3.IndexOf(s, a.t, 0)
+        found = i >= 0
+        isb = getattr(v, "is_bytes", False)
+        head = z3.If(found, z3.SubString(s, 0, i), s)
+        sep = z3.If(found, a.t, z3.StringVal(""))
+        tail = z3.If(found, z3.SubString(s, i + z3.Length(a.t), z3.Length(s) - i - z3.Length(a.t)), z3.StringVal(""))
+        return VTuple([VStr(head, isb), VStr(sep, isb), VStr(tail, isb)])
     if name == "index":
         a = I.force(args[0])
         r = z3.IndexOf(s, a.t, 0)
